@@ -22,14 +22,16 @@ EXTENDS Integers, Sequences, FiniteSets, TLC
 CONSTANTS NE, Interval, SyncCons, MaxTime,
           Unique,        \* "none" | "first" | "last"
           Mod,           \* key(e) = e % Mod   (unique variants)
-          ReleaseEarly
+          ReleaseEarly,
+          Faults         \* TRUE: the consumer's awaitable may raise
 
 VARIABLES arrived, buf, cbpc, wake, now, batch, batches, consBusy, arrAt, blkAt, blocked, rc, fired,
           awaitOf,   \* awaitOf[e]: index of the batch whose completion update(e) handed back (0: gen.moment)
           doneUpTo,  \* batches 1..doneUpTo have been completely handled downstream
-          emitDone
+          emitDone,
+          failedBatch  \* index of the batch whose consumer raised (0: none)
 vars == <<arrived, buf, cbpc, wake, now, batch, batches, consBusy, arrAt, blkAt, blocked, rc, fired,
-          awaitOf, doneUpTo, emitDone>>
+          awaitOf, doneUpTo, emitDone, failedBatch>>
 Elems == 1 .. NE
 Key(e) == e % Mod
 
@@ -37,7 +39,7 @@ Init ==
     /\ arrived = 0 /\ buf = <<>> /\ cbpc = "start" /\ wake = 0 /\ now = 0 /\ batch = <<>> /\ batches = <<>>
     /\ consBusy = FALSE /\ arrAt = [e \in Elems |-> 0] /\ blkAt = [e \in Elems |-> 0] /\ blocked = 0
     /\ rc = [e \in Elems |-> 0] /\ fired = <<>> /\ awaitOf = [e \in Elems |-> 0] /\ doneUpTo = 0
-    /\ emitDone = [e \in Elems |-> FALSE]
+    /\ emitDone = [e \in Elems |-> FALSE] /\ failedBatch = 0
 
 RECURSIVE ReleaseAll(_, _, _)
 ReleaseAll(s, r, f) ==       \* release every element of s; returns <<rc, fired>>
@@ -65,7 +67,7 @@ Arrive(e) ==
                 rf == ReleaseAll(<<old>>, [rc EXCEPT ![e] = @ + 1], fired)
             IN /\ buf' = Append(SelectSeq(buf, LAMBDA f : f # old), e)
                /\ rc' = rf[1] /\ fired' = rf[2]
-    /\ UNCHANGED <<cbpc, wake, now, batch, batches, consBusy, blocked, doneUpTo, emitDone>>
+    /\ UNCHANGED <<cbpc, wake, now, batch, batches, consBusy, blocked, doneUpTo, emitDone, failedBatch>>
 
 \* cb: swap the buffer and emit it
 Tick ==
@@ -79,12 +81,25 @@ Tick ==
        ELSE UNCHANGED <<rc, fired>>
     \* self.last (what update() hands to producers) completes as soon as the consumer has finished
     /\ doneUpTo' = IF SyncCons THEN Len(batches) + 1 ELSE doneUpTo
-    /\ UNCHANGED <<arrived, wake, now, arrAt, blkAt, blocked, awaitOf, emitDone>>
+    /\ UNCHANGED <<arrived, wake, now, arrAt, blkAt, blocked, awaitOf, emitDone, failedBatch>>
 
 ConsumerDone ==
     /\ consBusy /\ consBusy' = FALSE
     /\ doneUpTo' = Len(batches)
-    /\ UNCHANGED <<arrived, buf, cbpc, wake, now, batch, batches, arrAt, blkAt, blocked, rc, fired, awaitOf, emitDone>>
+    /\ UNCHANGED <<arrived, buf, cbpc, wake, now, batch, batches, arrAt, blkAt, blocked, rc, fired, awaitOf, emitDone, failedBatch>>
+
+\* the consumer's awaitable raises: `yield self.last` raises inside cb, which ends; the batch stays retained for ever,
+\* no further batch is ever emitted, and `self.last` -- handed to every later update() -- carries the exception
+ConsumerFail ==
+    /\ Faults /\ consBusy /\ consBusy' = FALSE
+    /\ cbpc' = "dead" /\ failedBatch' = Len(batches)
+    /\ UNCHANGED <<arrived, buf, wake, now, batch, batches, arrAt, blkAt, blocked, rc, fired, awaitOf, doneUpTo, emitDone>>
+
+\* the producers that were handed the failed batch's awaitable see the exception
+EmitRaised(e) ==
+    /\ e <= arrived /\ ~emitDone[e] /\ failedBatch # 0 /\ awaitOf[e] = failedBatch
+    /\ emitDone' = [emitDone EXCEPT ![e] = TRUE]
+    /\ UNCHANGED <<arrived, buf, cbpc, wake, now, batch, batches, consBusy, arrAt, blkAt, blocked, rc, fired, awaitOf, doneUpTo, failedBatch>>
 
 \* downstream finished with the batch: release it and go to sleep
 TickRelease ==
@@ -92,13 +107,13 @@ TickRelease ==
     /\ IF ReleaseEarly THEN UNCHANGED <<rc, fired>>
        ELSE LET rf == ReleaseAll(batch, rc, fired) IN rc' = rf[1] /\ fired' = rf[2]
     /\ cbpc' = "sleeping" /\ wake' = now + Interval /\ batch' = <<>>
-    /\ UNCHANGED <<arrived, buf, now, batches, consBusy, arrAt, blkAt, blocked, awaitOf, emitDone, doneUpTo>>
+    /\ UNCHANGED <<arrived, buf, now, batches, consBusy, arrAt, blkAt, blocked, awaitOf, emitDone, doneUpTo, failedBatch>>
 
 \* the producer sees its emit complete: the awaitable it was handed has finished
 EmitDone(e) ==
     /\ e <= arrived /\ ~emitDone[e] /\ awaitOf[e] <= doneUpTo
     /\ emitDone' = [emitDone EXCEPT ![e] = TRUE]
-    /\ UNCHANGED <<arrived, buf, cbpc, wake, now, batch, batches, consBusy, arrAt, blkAt, blocked, rc, fired, awaitOf, doneUpTo>>
+    /\ UNCHANGED <<arrived, buf, cbpc, wake, now, batch, batches, consBusy, arrAt, blkAt, blocked, rc, fired, awaitOf, doneUpTo, failedBatch>>
 
 Advance ==
     /\ now < MaxTime
@@ -106,14 +121,14 @@ Advance ==
     /\ ~(cbpc = "awaiting" /\ ~consBusy)
     /\ now' = now + 1
     /\ blocked' = IF cbpc = "awaiting" THEN blocked + 1 ELSE blocked
-    /\ UNCHANGED <<arrived, buf, cbpc, wake, batch, batches, consBusy, arrAt, blkAt, rc, fired, awaitOf, doneUpTo, emitDone>>
+    /\ UNCHANGED <<arrived, buf, cbpc, wake, batch, batches, consBusy, arrAt, blkAt, rc, fired, awaitOf, doneUpTo, emitDone, failedBatch>>
 
 Internal == Tick \/ TickRelease
-Next == (\E e \in Elems : Arrive(e) \/ EmitDone(e)) \/ Internal \/ ConsumerDone \/ Advance
+Next == (\E e \in Elems : Arrive(e) \/ EmitDone(e) \/ EmitRaised(e)) \/ Internal \/ ConsumerDone \/ ConsumerFail \/ Advance
 Spec == Init /\ [][Next]_vars
 
 ----------------------------------------------------------------------------
-TypeOK == cbpc \in {"start", "awaiting", "sleeping"}
+TypeOK == cbpc \in {"start", "awaiting", "sleeping", "dead"}
 RECURSIVE Flat(_)
 Flat(bs) == IF bs = <<>> THEN <<>> ELSE Head(bs)[1] \o Flat(Tail(bs))
 Emitted == Flat(batches)
@@ -136,12 +151,12 @@ Deadline == \A b \in 1 .. Len(batches) : \A i \in 1 .. Len(batches[b][1]) :
                 LET e == batches[b][1][i] IN
                 batches[b][2] - arrAt[e] <= Interval + (blocked - blkAt[e])
 \* nothing waits in the buffer beyond its deadline while the node is free to tick
-NoOverdue == \A i \in 1 .. Len(buf) : (now - arrAt[buf[i]]) <= Interval + (blocked - blkAt[buf[i]])
+NoOverdue == cbpc # "dead" => \A i \in 1 .. Len(buf) : (now - arrAt[buf[i]]) <= Interval + (blocked - blkAt[buf[i]])
 
 \* C04 / C05
-InFlight(e) == InSeq(buf, e) \/ (InSeq(batch, e) /\ cbpc = "awaiting")
+InFlight(e) == InSeq(buf, e) \/ (InSeq(batch, e) /\ cbpc \in {"awaiting", "dead"})
 CbSafe == \A i \in 1 .. Len(fired) : ~InFlight(fired[i])
 RcBalance == /\ \A e \in Elems : rc[e] >= 0
-             /\ \A e \in Elems : rc[e] = (IF InSeq(buf, e) \/ (~ReleaseEarly /\ InSeq(batch, e) /\ cbpc = "awaiting") THEN 1 ELSE 0)
+             /\ \A e \in Elems : rc[e] = (IF InSeq(buf, e) \/ (~ReleaseEarly /\ InSeq(batch, e) /\ cbpc \in {"awaiting", "dead"}) THEN 1 ELSE 0)
              /\ \A e \in Elems : Cardinality({i \in 1 .. Len(fired) : fired[i] = e}) <= 1
 =============================================================================
